@@ -62,6 +62,8 @@ func FuzzC03(f *testing.F) {
 		{"https://a.test:443/x?y#z", "https://a.test/x?y"},
 		{"http://a.test./", "http://a.test/"},
 		{"http://u:p@a.test/%2F", "http://a.test//"},
+		{"http://a.test/?q=\xe9", "http://a.test/?q=\xef\xbf\xbd"},
+		{"http://a.test/\xe9?\xff", "http://a.test/%E9?\xfe"},
 	}
 	for _, s := range seeds {
 		f.Add(s[0], s[1])
